@@ -48,6 +48,7 @@ KNOWN = [
 
 # subject prefix (after 'fix: ') -> (properties, rule, what failed)
 FIXED = [
+    ("two discs at different heights were reported as intersecting", ["C16"], "C16.z", "CircularRegion((0,0,0), 5).intersects(CircularRegion((0,0,1), 5)) was True although the two parallel discs share no point and their intersect() is empty: the 3-D distance of the centres was compared with the sum of the radii (F66; found while writing the planar-metric rule for a seeded change)"),
     ("locals of a modular scenario were sampled in string-hash order", ["C15"], "C15.sinks", "a scenario whose setup block binds several random values to locals gave different scenes and iteration counts under different PYTHONHASHSEED values: _makeLocalsSnapshot iterated the frozenset of local names the compiler emits (F65; reported by an independent agent)"),
     ("'require[p]' with a non-decimal or complex literal escaped as ValueError", ["C10"], "C10.partial", "`require[0x1] C` and `require[1j] C` escaped from the parser with ValueError (float() of the token text) (F61; reported by an independent agent)"),
     ("'require monitor M() as name' crashed the compiler", ["C10"], "C10.groups", "`require monitor M() as foo` failed with TypeError (invalid type in Constant: list): the optional `as <name>` group had no action, so the name was the list of matched items (F62; reported by an independent agent)"),
